@@ -11,9 +11,9 @@ CONSTANTS
   AllowLag = FALSE
   ElectDown = TRUE
   MaxMsgs = 2
-  MaxElect = 2
+  MaxElect = 0
   MaxCrash = 1
-  MaxIsrOps = 1
+  MaxIsrOps = 0
   MaxRejects = 0
   Policies = {"ALL"}
   UseCheckpoint = FALSE
@@ -21,7 +21,6 @@ CONSTANTS
   MaxHold = 0
   Batch = 1
   IgnoreTaints = FALSE
-INVARIANTS Inv_CommittedSurvives Inv_NoDivergence Inv_HWBacked Inv_Nacked Inv_Struct NoTaint_HWFallbackKeptAlone
-PROPERTIES AcksOK HWMono
+INVARIANTS NoBad_HWFallbackReported
 VIEW MCView
 CHECK_DEADLOCK FALSE
